@@ -49,6 +49,19 @@ fn main() {
         }
         i += 1;
     }
+    if id == "show-model" {
+        // debugging aid: print the source text and what rooc compiles it to
+        let path = replay.clone().expect("--replay file");
+        let text = std::fs::read_to_string(path).unwrap();
+        let v: serde_json::Value = serde_json::from_str(&text).unwrap();
+        let case: gen::model::ModelCase = serde_json::from_value(v["case"].clone()).unwrap();
+        println!("{}\n--", case.text());
+        match props::lincheck::compile(&case) {
+            Ok(m) => println!("{}\n{:?}", m, m),
+            Err(e) => println!("error: {e}"),
+        }
+        return;
+    }
     let run_args = RunArgs { tier, seed, replay };
     if id == "selftest" {
         match oracle::rat::self_test() {
